@@ -1,4 +1,5 @@
 import QuantemModel.Lemmas.NormQuantile
+import QuantemModel.Lemmas.NormHistory
 /-!
 C20 — display normalisation is a monotone map into [0, 1] with invertible stretches.
 
@@ -11,7 +12,7 @@ Only property theorems and non-vacuity examples live here.
 -/
 namespace QuantemModel.Props.C20
 open QuantemModel QuantemModel.Norm QuantemModel.Generated.Stretch QuantemModel.StretchSpec
-open QuantemModel.NormLemmas
+open QuantemModel.NormLemmas QuantemModel.NormHistory
 
 /-! ## 1. interval: affine map + clip -/
 
@@ -68,6 +69,15 @@ theorem generated_eq_spec_asinh (s : InverseHyperbolicSineStretch ℝ) (x : ℝ)
 theorem generated_eq_spec_sinh (s : HyperbolicSineStretch ℝ) (x : ℝ) :
     s.call x = Real.sinh ((2 * clip01 x - 1) / s.a) / (2 * Real.sinh (1 / s.a)) + 1 / 2 :=
   sinh_call_eq s x
+
+/-- the traced `BaseInterval.__call__` body (the text `Norm.intervalFin` is defined as) is the affine map + clip -/
+theorem generated_eq_spec_interval (vmin vmax x : ℝ) :
+    baseIntervalCall vmin vmax x =
+      if vmax - vmin ≠ 0 then clip01 ((x - vmin) / (vmax - vmin)) else clip01 (x - vmin) := intervalFin_eq vmin vmax x
+
+/-- the traced `BaseInterval.inverse` body -/
+theorem generated_eq_spec_interval_inverse (vmin vmax y : ℝ) :
+    baseIntervalInverse vmin vmax y = y * (vmax - vmin) + vmin := intervalInverse_eq vmin vmax y
 
 /-- the declared inverses, as translated from the `inverse` properties -/
 theorem generated_inverse_spec :
@@ -511,18 +521,18 @@ theorem norm_inverse_roundtrip (s : Stretch ℝ) (h : Admissible s) {lo hi : ℝ
   · intro x h0 h1
     have hm := intervalFin_mem lo hi x
     rw [stretch_inverse_left s h _ hm.1 hm.2, hfin x h0 h1]
-    simp only [intervalInverse, NumReal.mul_eq, NumReal.sub_eq, NumReal.add_eq]
+    simp only [intervalInverse_eq]
     field_simp
     ring
   · intro y h0 h1
     obtain ⟨hu0, hu1⟩ := (stretch_law s.inverse (admissible_inverse s h)).maps_unit y h0 h1
     have hx0 : lo ≤ intervalInverse lo hi (s.inverse.call y) := by
-      simp only [intervalInverse, NumReal.mul_eq, NumReal.sub_eq, NumReal.add_eq]; nlinarith
+      simp only [intervalInverse_eq]; nlinarith
     have hx1 : intervalInverse lo hi (s.inverse.call y) ≤ hi := by
-      simp only [intervalInverse, NumReal.mul_eq, NumReal.sub_eq, NumReal.add_eq]; nlinarith
+      simp only [intervalInverse_eq]; nlinarith
     rw [hfin _ hx0 hx1]
     have : (intervalInverse lo hi (s.inverse.call y) - lo) / (hi - lo) = s.inverse.call y := by
-      simp only [intervalInverse, NumReal.mul_eq, NumReal.sub_eq, NumReal.add_eq]
+      simp only [intervalInverse_eq]
       field_simp
       ring
     rw [this]
@@ -542,6 +552,96 @@ theorem presets_admissible :
   exact ⟨n, hn, init_admissible _ _ hn⟩
 
 theorem presets_count : (presets : List (String × Config ℝ)).length = 10 := rfl
+
+/-! ## 6. histories of operations on one object (including operations that raise) -/
+
+theorem intervalOK_static (i : Interval ℝ) (d : List (Ext ℝ)) (h : IntervalOK i d) : LimitsStatic i := by
+  cases i with
+  | quantile a b => exact h
+  | centered c half => exact h
+  | manual a b => cases a <;> cases b <;> simp_all [IntervalOK, LimitsStatic]
+
+/-- the operations of a history are admissible: `_set_limits` is only asked for limits the configuration orders
+(`IntervalOK`); calls, inverses and rejected operations are unrestricted (they may raise) -/
+def OpsOK : Norm.Norm ℝ → List Op → Prop
+  | _, [] => True
+  | n, op :: rest =>
+    (match op with | .setLimits false d => IntervalOK n.interval d | _ => True) ∧ OpsOK (step n op) rest
+
+/-- one step keeps the stretch, and keeps the limits ordered -/
+theorem step_invariant (n : Norm.Norm ℝ) (op : Op) (hs : LimitsStatic n.interval)
+    (hop : match op with | .setLimits false d => IntervalOK n.interval d | _ => True) :
+    (step n op).stretch = n.stretch ∧ LimitsStatic (step n op).interval := by
+  cases op with
+  | call d => exact ⟨rfl, hs⟩
+  | inverse ys => exact ⟨rfl, hs⟩
+  | rejected => exact ⟨rfl, hs⟩
+  | setLimits b d =>
+    cases b with
+    | true =>
+      refine ⟨by simp [step, Norm.setLimits], ?_⟩
+      simp only [step, Norm.setLimits, if_true, LimitsStatic, NumReal.ofRat_eq]
+      norm_num
+    | false =>
+      simp only [step]
+      cases hl : n.setLimits false d with
+      | error e => exact ⟨rfl, hs⟩
+      | ok n' =>
+        obtain ⟨lo, hi, hg, _, _, hst, hfro⟩ := frozen_limits n n' d hl
+        refine ⟨hst, ?_⟩
+        have hle := getLimits_ordered n.interval d lo hi hop hg
+        have hi' : n'.interval = .manual (some lo) (some hi) := by
+          unfold Norm.setLimits at hl
+          simp only [Bool.false_eq_true, if_false, hg, bind, Except.bind, pure, Except.pure] at hl
+          cases hl; rfl
+        simp only [hi', LimitsStatic]
+        exact hle
+
+/-- INVARIANT over every history (operations that return, operations that raise, rejected operations, any order,
+any length): the object keeps the stretch it was built with and limits that are ordered -/
+theorem history_invariant (ops : List Op) : ∀ (n : Norm.Norm ℝ), LimitsStatic n.interval → OpsOK n ops →
+    (run n ops).stretch = n.stretch ∧ LimitsStatic (run n ops).interval := by
+  induction ops with
+  | nil => intro n hs _; exact ⟨rfl, hs⟩
+  | cons op rest ih =>
+    intro n hs hops
+    obtain ⟨hop, hrest⟩ := hops
+    obtain ⟨h1, h2⟩ := step_invariant n op hs hop
+    obtain ⟨h3, h4⟩ := ih (step n op) h2 hrest
+    exact ⟨by simpa [run, List.foldl_cons] using h3.trans h1, by simpa [run, List.foldl_cons] using h4⟩
+
+/-- hence after ANY history every call that returns satisfies the property: NaN masked, finite pixels to numbers in
+[0, 1], non-decreasing — for an object built by the constructor (`Norm.init`) from a configuration whose limits are
+ordered -/
+theorem history_call_spec (c : Config ℝ) (n : Norm.Norm ℝ) (hinit : Norm.init c = .ok n) (hs : LimitsStatic n.interval)
+    (ops : List Op) (hops : OpsOK n ops) (data : List (Ext ℝ)) (out : List (Option ℝ))
+    (hok : IntervalOK (run n ops).interval data) (h : (run n ops).call data = .ok out) :
+    ∃ lo hi, lo ≤ hi ∧ out = data.map (normPixel n.stretch lo hi) ∧
+      normPixel n.stretch lo hi .nan = none ∧
+      (∀ x, ∃ y, normPixel n.stretch lo hi (.fin x) = some y ∧ 0 ≤ y ∧ y ≤ 1) ∧
+      (∀ x x' y y', x ≤ x' → normPixel n.stretch lo hi (.fin x) = some y →
+        normPixel n.stretch lo hi (.fin x') = some y' → y ≤ y') := by
+  obtain ⟨hst, _⟩ := history_invariant ops n hs hops
+  have hadm : Admissible (run n ops).stretch := by rw [hst]; exact init_admissible c n hinit
+  have := norm_call_spec (run n ops) hadm data out hok h
+  rwa [hst] at this
+
+/-- after a `_set_limits` that returned, the limits are frozen for the rest of the history as long as no other
+`_set_limits` follows: calls, inverses and rejected operations do not move them -/
+theorem history_frozen (n' : Norm.Norm ℝ) (ops : List Op)
+    (hops : ∀ op ∈ ops, ∀ b d', op ≠ .setLimits b d') :
+    run n' ops = n' := by
+  induction ops with
+  | nil => rfl
+  | cons op rest ih =>
+    have hstep : step n' op = n' := by
+      cases op with
+      | setLimits b d' => exact absurd rfl (hops _ (by simp) b d')
+      | call _ => rfl
+      | inverse _ => rfl
+      | rejected => rfl
+    simp only [run, List.foldl_cons, hstep]
+    exact ih (fun op hop => hops op (by simp [hop]))
 
 /-! ## non-vacuity: the hypotheses are satisfiable by the instances the code actually builds -/
 
@@ -568,5 +668,18 @@ example : IntervalOK (.manual (some 0) none) [.fin (-1), .nan, .fin 2] := ⟨2, 
 /-- the default configuration constructs -/
 example : ∃ n, Norm.init (Config.default : Config ℝ) = .ok n :=
   (presets_admissible ("quantile", Config.default) (by simp [presets])).imp fun _ h => h.1
+
+/-- a history with a rejected operation, a call and a `_set_limits` on ordered data is admissible for the default
+configuration's object -/
+example : ∃ n, Norm.init (Config.default : Config ℝ) = .ok n ∧ LimitsStatic n.interval ∧
+    OpsOK n [.rejected, .call [.fin 1, .fin 2], .setLimits false [.fin 1, .nan, .fin 2], .rejected, .inverse [0, 1]] := by
+  obtain ⟨n, hn⟩ : ∃ n, Norm.init (Config.default : Config ℝ) = .ok n :=
+    (presets_admissible ("quantile", Config.default) (by simp [presets])).imp fun _ h => h.1
+  have hn' := hn
+  simp [Norm.init, selectInterval, selectStretch, Config.default, fne_iff, Stretch.valid, linear_valid] at hn'
+  subst hn'
+  refine ⟨_, hn, ?_, ?_⟩
+  · simp only [LimitsStatic]; norm_num
+  · simp only [OpsOK, step, and_true, true_and, IntervalOK]; norm_num
 
 end QuantemModel.Props.C20
